@@ -75,7 +75,7 @@ def check_roundtrip(r, exact):
 
 
 def run(tier, seed, rng):
-    ng = 70 if tier == 'quick' else 700
+    ng = 70 if tier == 'quick' else 2500
     feats = lambda gid: dict(generic_unpack=(gid % 2 == 0), codegen_opts=(gid % 4 == 1))
     groups = pktprops.make_groups(rng, ng, feats, values_per_class=2 if tier == 'quick' else 4, offsets=(1, 4), record=True, defaults=False)
     # ---- zero-length and overlapping fields positioned inside bytes another field consumed (an empty chunk inside a fragment,
